@@ -272,11 +272,15 @@ func (w *world) id(h *chainhash.Hash) int {
 
 type countDB struct {
 	database.DB
-	n     int
-	after func(k int)
+	n      int
+	before func(k int) // called before the k-th commit is attempted
+	after  func(k int)
 }
 
 func (c *countDB) Update(fn func(tx database.Tx) error) error {
+	if c.before != nil {
+		c.before(c.n + 1)
+	}
 	err := c.DB.Update(fn)
 	if err == nil {
 		c.n++
@@ -707,6 +711,7 @@ type run struct {
 	root string
 	w    *world
 	l1   *life
+	lz   *life // the same workload with a lazily flushed metadata cache (op `lazy`)
 	// second lives, by first-level crash index
 	l2 map[int]*life
 }
@@ -766,6 +771,14 @@ func (l *life) img(k int) string { return filepath.Join(l.root, fmt.Sprintf("img
 // runLife starts a process on a copy of startDir ("" = empty directory) and
 // performs ops.
 func runLife(root string, startDir string, w *world, c cfg, ops []string) *life {
+	return runLifeMode(root, startDir, w, c, ops, false)
+}
+
+// lazyPeriod: in a lazy life only every lazyPeriod-th commit is written through to leveldb (and
+// flushes what the metadata cache holds); the others stay in the cache, i.e. are lost by a crash.
+const lazyPeriod = 3
+
+func runLifeMode(root string, startDir string, w *world, c cfg, ops []string, lazy bool) *life {
 	os.MkdirAll(root, 0o755)
 	l := &life{root: root, w: w, c: c, ops: ops, ackEnd: map[int]int{}}
 	live := filepath.Join(root, "live")
@@ -789,9 +802,21 @@ func runLife(root string, startDir string, w *world, c cfg, ops []string) *life 
 	l.synced = []map[uint32]int64{nil}
 	l.connected = map[int]bool{}
 	tr := trackerOf(raw)
+	if lazy {
+		cdb.before = func(k int) { ffldb.VerifC04SetWriteThrough(raw, k%lazyPeriod == 0) }
+	}
 	cdb.after = func(k int) {
 		copyTree(live, l.img(k))
 		l.synced = append(l.synced, tr.snapshot())
+		if lazy {
+			// power loss: what was never fsynced is gone
+			for n, sz := range l.synced[k] {
+				p := filepath.Join(l.img(k), blockFileName(n))
+				if fi, err := os.Stat(p); err == nil && fi.Size() > sz {
+					os.Truncate(p, sz)
+				}
+			}
+		}
 		ps := w.persisted(raw)
 		l.pers = append(l.pers, ps)
 		l.window = append(l.window, "-")
@@ -1302,6 +1327,54 @@ func (P) exec(line string) string {
 		v.prunedTip = !v.reopened && prunedTip(c, l.pers[k])
 		v.apis = v.apis && l.snapChanged == 0
 		real := fmt.Sprintf("n=%d res=%s sv=%d %s w=%s %s", l.n, strings.Join(l.res, "."), l.snapChanged, l.pers[k], l.window[k], rs)
+		if over && v.propertyHolds() {
+			real = fmt.Sprintf("n=%d out-of-range", l.n)
+		}
+		return judge(strings.Join(t, " "), real, v)
+	case "lazy":
+		// The metadata cache is NOT written through: only every lazyPeriod-th commit reaches
+		// leveldb; the image after commit k is the directory as a power loss leaves it (leveldb
+		// as of the last flush, block files cut back to their last-fsynced length).  It must be
+		// the image of the durable prefix k' = k - k mod lazyPeriod.
+		if len(t) != 7 {
+			return "malformed"
+		}
+		k, err := strconv.Atoi(t[6])
+		if err != nil || k < lazyPeriod {
+			return "malformed"
+		}
+		r, c, ops, ok := getRun(append([]string{"C04", "img"}, t[2:]...))
+		if !ok {
+			return "malformed"
+		}
+		if r.lz == nil {
+			r.lz = runLifeMode(filepath.Join(r.root, "lz"), "", r.w, c, ops, true)
+		}
+		l := r.lz
+		if l.bad != "" {
+			return l.bad
+		}
+		over := k > l.n
+		if over {
+			k = l.n
+		}
+		kd := k - k%lazyPeriod
+		pers := ""
+		tmp := filepath.Join(r.root, "lzpers")
+		os.RemoveAll(tmp)
+		copyTree(l.img(k), tmp)
+		if raw, err := openDBRaw(tmp, c, false); err == nil {
+			pers = r.w.persisted(raw)
+			raw.Close()
+		} else {
+			pers = "best=? image-unreadable"
+		}
+		os.RemoveAll(tmp)
+		rs, v := reopenV(r.root, l.img(k), r.w, c.life(2), l.acked(kd), ops,
+			pctx{prev: prevSet(l.bestAt[:kd+1]), conn: l.connected, specFin: l.finTip})
+		v.prunedTip = !v.reopened && prunedTip(c, pers)
+		v.apis = v.apis && l.snapChanged == 0
+		real := fmt.Sprintf("n=%d res=%s sv=%d %s w=%s %s", l.n, strings.Join(l.res, "."), l.snapChanged, pers, l.window[kd], rs)
 		if over && v.propertyHolds() {
 			real = fmt.Sprintf("n=%d out-of-range", l.n)
 		}
@@ -1883,6 +1956,10 @@ func (P) Generate(g *core.Gen) {
 		for i := 0; i < 2 && n > 3; i++ {
 			g.Case(class+"-torn", true, fmt.Sprintf("C04 torn %s %d", key, 4+g.R.Intn(n-3)))
 		}
+		// power loss with a lazily flushed metadata cache: the image of the durable prefix
+		for i := 0; i < 3 && n > 6; i++ {
+			g.Case(class+"-lazy", true, fmt.Sprintf("C04 lazy %s %d", key, 3+g.R.Intn(n-2)))
+		}
 		// power-loss images: block files cut back to what had been fsynced at commit k
 		for i := 0; i < 3 && n > 3; i++ {
 			g.Case(class+"-sync", true, fmt.Sprintf("C04 sync %s %d", key, 4+g.R.Intn(n-3)))
@@ -2034,7 +2111,7 @@ func (P) Generate(g *core.Gen) {
 		"C04 img 2 0 1:0:- d1 1", "C04 img 0 0 1:1:- d1 1", "C04 img 0 0 1:0:- d2 1", "C04 img 0 0 1:0:- d1 0",
 		"C04 img 0 0 1:0:-:y d1 1", "C04 img 0 0 1:0:-,1:0:- d1 1", "C04 img 0 0 - - 1", "C04 img 0 0 - - 3", "C04 img 0 0 - - 4",
 		"C04 img 0 0 1:0:- d1", "C04 nop", "C04 img 0 500:1000 1:0:- d1 1", "C04 img 0 1000:0 1:0:- d1 1",
-		"C04 img2 0 0 1:0:- d1 4 0", "C04 sync 0 0 1:0:- d1", "C04 sync 0 0 1:0:- d1 0", "C04 par 0 0 1:0:- d1 4", "C04 par 0 0 1:0:- d1 4.0", "C04 par 0 0 1:0:- d1 4.x", "C04 img 1>2 0 1:0:- d1 4", "C04 img 1>0>1>0 0 1:0:- d1 4", "C04 img > 0 1:0:- d1 4", "C04 img 1>0 0 1:0:- d1 4", "C04 img2 0 0 1:0:- d1 4 1", "C04 img2 0 0 1:0:- d1 4 99", "C04 torn 0 0 1:0:- d1 5",
+		"C04 img2 0 0 1:0:- d1 4 0", "C04 sync 0 0 1:0:- d1", "C04 sync 0 0 1:0:- d1 0", "C04 lazy 0 0 1:0:- d1 2", "C04 lazy 0 0 1:0:- d1 3", "C04 lazy 0 0 1:0:- d1 99", "C04 lazy 0 0 1:0:- d1", "C04 par 0 0 1:0:- d1 4", "C04 par 0 0 1:0:- d1 4.0", "C04 par 0 0 1:0:- d1 4.x", "C04 img 1>2 0 1:0:- d1 4", "C04 img 1>0>1>0 0 1:0:- d1 4", "C04 img > 0 1:0:- d1 4", "C04 img 1>0 0 1:0:- d1 4", "C04 img2 0 0 1:0:- d1 4 1", "C04 img2 0 0 1:0:- d1 4 99", "C04 torn 0 0 1:0:- d1 5",
 	} {
 		g.Case("malformed", false, l)
 	}
